@@ -50,6 +50,12 @@ THEOREMS = [
     "PorepyVerif.C21.extract_subgrid_entries_from_parent",
     "PorepyVerif.C21.split_face_wf",
     "PorepyVerif.C21.split_faces_become_boundary",
+    "PorepyVerif.C21.extract_subgrid_no_orphan",
+    "PorepyVerif.C21.trace_spec",
+    "PorepyVerif.C21.trace_internal_errors",
+    "PorepyVerif.C21.internal_nodes_spec",
+    "PorepyVerif.C21.line1d_wf",
+    "PorepyVerif.C21.line1d_no_orphan",
 ]
 LEAN_MODULES = ["PorepyVerif.C21.Props"]
 AUDIT = "PorepyVerif/C21/Audit.lean"
@@ -65,7 +71,9 @@ RULE = ("one grid per case, built by the real code from a recipe: CartGrid 1/2/3
         "reversed; sizes empty, single, 2-8, all boundary faces; with a repeated face; with an internal face -> ValueError), divergence(dim) "
         "for dims from {1,2,3,4} and sometimes 0/-1/-2 -> ValueError, each applied to a seeded dyadic flux vector; tag arithmetic on the grid's "
         "own tags (all_face_tags, all_node_tags, update_boundary_node_tag, add_node_tags_from_face_tags) and add_tags / extract / append_tags on a "
-        "seeded free-standing dictionary (15% with an unknown key -> KeyError); for subgrids the whole extraction (incidence, face_nodes, face and node maps). non-trivial = at least 2 cells and 3 faces; distinct = distinct recipes+queries")
+        "seeded free-standing dictionary (15% with an unknown key -> KeyError); Grid.trace() and trace(dim), get_all_boundary_nodes / get_boundary_nodes / "
+        "get_internal_nodes; the 1-d constructor against the model line1d; 25% of the cases come from 18 explicit corner strata (see input_distribution.strata); "
+        "every query is repeated on a quarter of the cases and the grid is checked to be unmodified by the queries; for subgrids the whole extraction (incidence, face_nodes, face and node maps). non-trivial = at least 2 cells and 3 faces; distinct = distinct recipes+queries")
 TRUSTED = [
     "modelled, not verified: scipy.sparse glue (sps.find enumeration order, csc->csr conversion, matrix product / kron / transpose, row slicing, "
     "boolean comparison of sparse matrices), numpy fancy assignment (last write wins), argsort round trip in signs_and_cells_of_boundary_faces "
@@ -87,7 +95,10 @@ EXPLANATION = ("FULL: model = stored entries (face, cell, sign) of cell_faces in
                "dictionary arithmetic (add_tags lookup, all_tags = union, node tags = nodes of tagged faces, constructor tags: boundary node iff on a one-cell face); "
                "well-formedness is preserved by extract_subgrid's restriction+renumbering and by splitting a face, whose two copies become one-cell faces. Correspondence compares every query's output "
                "exactly (sets canonically sorted) and the model's decision of the theorems' hypothesis WF/NoOrphan with an independent numpy computation.")
-ASSUMPTIONS = ["theorems about dense array, boundary tags and signs/cells assume the well-formedness predicate WF (signs +-1, at most one cell per side "
+ASSUMPTIONS = ["WF is discharged by proof for the 1-d constructor (line1d_wf, all n), preserved by extract_subgrid (extract_subgrid_wf; NoOrphan holds for every "
+               "subgrid unconditionally, extract_subgrid_no_orphan) and by face splitting (split_face_wf); for the 2-d/3-d structured, simplex and gmsh constructors it "
+               "remains a decidable input condition evaluated by the driver on every case",
+               "theorems about dense array, boundary tags and signs/cells assume the well-formedness predicate WF (signs +-1, at most one cell per side "
                "of a face, no repeated entry); the harness checks on every generated grid that the model decides WF exactly when numpy does, and every grid "
                "built by porepy constructors / meshing / extraction in the sample satisfied it"]
 
@@ -221,9 +232,73 @@ def _gen_base(rng, tier):
     return _gen_raw(rng, malformed=rng.random() < 0.2)
 
 
+CORNERS = ("one-cell-1d", "one-cell-2d", "one-cell-3d", "one-triangle-pair", "one-cube-tets", "empty-subgrid", "single-cell-subgrid",
+           "full-subgrid", "raw-no-cells", "raw-no-faces", "raw-unsorted", "raw-ill-formed", "long-1d", "large-2d", "extreme-scale-tensor",
+           "fracture-on-boundary", "crossing-fractures", "subgrid-of-subgrid")
+
+
+def _gen_corner(rng, name):
+    """explicit corner-case strata (size 0/1, unsorted, ill-formed, extreme scale, degenerate fracture positions, repeated extraction)"""
+    sub = lambda b, frac, one=False: {"kind": "sub", "base": b, "frac": frac, "seed": rng.randint(0, 10 ** 6), "one": one}
+    if name == "one-cell-1d":
+        return {"kind": "cart", "n": [1], "perturb": None}
+    if name == "one-cell-2d":
+        return {"kind": "cart", "n": [1, 1], "perturb": None}
+    if name == "one-cell-3d":
+        return {"kind": "cart", "n": [1, 1, 1], "perturb": None}
+    if name == "one-triangle-pair":
+        return {"kind": "tri", "n": [1, 1], "perturb": None}
+    if name == "one-cube-tets":
+        return {"kind": "tet", "n": [1, 1, 1], "perturb": None}
+    if name == "empty-subgrid":
+        return sub(_gen_base_plain(rng), 0.0)
+    if name == "single-cell-subgrid":
+        return sub(_gen_base_plain(rng), 0.5, True)
+    if name == "full-subgrid":
+        return sub(_gen_base_plain(rng), 1.0)
+    if name == "subgrid-of-subgrid":
+        return sub(sub(_gen_base_plain(rng), 0.8), 0.6)
+    if name in ("raw-no-cells", "raw-no-faces", "raw-unsorted", "raw-ill-formed"):
+        for _ in range(200):
+            r = _gen_raw(rng, malformed=name == "raw-ill-formed")
+            cols = [r["cf_indices"][r["cf_indptr"][c]:r["cf_indptr"][c + 1]] for c in range(r["nc"])]
+            ok = {"raw-no-cells": r["nc"] == 0, "raw-no-faces": r["nf"] == 0, "raw-unsorted": any(c != sorted(c) for c in cols),
+                  "raw-ill-formed": any(r["cf_indices"].count(f) >= 3 for f in range(r["nf"]))}[name]
+            if ok:
+                return r
+        return r
+    if name == "long-1d":
+        return {"kind": "cart", "n": [rng.randint(30, 60)], "perturb": None}
+    if name == "large-2d":
+        return {"kind": "cart", "n": [rng.randint(7, 9), rng.randint(7, 9)], "perturb": None}
+    if name == "extreme-scale-tensor":
+        xs = [0.0]
+        for _ in range(rng.randint(1, 5)):
+            xs.append(xs[-1] + rng.choice([1e-9, 1e-3, 1.0, 1e6, 1e12]))
+        return {"kind": "tensor", "coords": [xs] if rng.random() < 0.5 else [xs, [0.0, 1e-9, 1e9]]}
+    if name == "fracture-on-boundary":
+        n = [rng.randint(2, 4), rng.randint(2, 4)]
+        return {"kind": "frac_cart", "n": n, "fracs": [[[0, 0], [0, rng.randint(1, n[1])]]], "sd": 0}
+    if name == "crossing-fractures":
+        return {"kind": "frac_cart", "n": [2, 2], "fracs": [[[0, 2], [1, 1]], [[1, 1], [0, 2]]], "sd": rng.randint(0, 3)}
+    raise ValueError(name)
+
+
+def _gen_base_plain(rng):
+    return rng.choice([{"kind": "cart", "n": [rng.randint(1, 4), rng.randint(1, 3)], "perturb": None},
+                       {"kind": "tri", "n": [rng.randint(1, 3), rng.randint(1, 2)], "perturb": None},
+                       {"kind": "cart", "n": [rng.randint(1, 6)], "perturb": None},
+                       {"kind": "frac_cart", "n": [3, 3], "fracs": [[[1, 2], [1, 1]]], "sd": 0}])
+
+
 def gen_case(rng, tier):
-    base = _gen_base(rng, tier)
-    if base["kind"] not in ("raw", "point") and rng.random() < 0.3:
+    stratum = None
+    if rng.random() < 0.25:
+        stratum = CORNERS[rng.randrange(len(CORNERS))]
+        base = _gen_corner(rng, stratum)
+    else:
+        base = _gen_base(rng, tier)
+    if stratum is None and base["kind"] not in ("raw", "point") and rng.random() < 0.3:
         base = {"kind": "sub", "base": base, "frac": rng.choice([0.0, 0.15, 0.3, 0.5, 0.5, 0.8, 1.0]), "seed": rng.randint(0, 10 ** 6),
                 "one": rng.random() < 0.15}
     qs = []
@@ -237,7 +312,7 @@ def gen_case(rng, tier):
         qs.append({"seed": rng.randint(0, 10 ** 6), "size": size, "dup": rng.random() < 0.25,
                    "internal": rng.random() < 0.2, "order": order, "shift": rng.randint(1, 7)})
     dims = rng.sample([1, 2, 3, 4], rng.randint(1, 3)) + ([rng.choice([0, -1, -2])] if rng.random() < 0.3 else [])
-    return {"grid": base, "sc": qs, "div": dims, "flux": rng.randint(0, 10 ** 6),
+    return {"grid": base, "sc": qs, "div": dims, "flux": rng.randint(0, 10 ** 6), "stratum": stratum or "random",
             "tagops": {"seed": rng.randint(0, 10 ** 6), "missing": rng.random() < 0.15}}
 
 
@@ -471,6 +546,20 @@ def _with_node_tags_restored(g, f):
             g.tags[k] = v
 
 
+def _trace_dims(case):
+    """first entry is the default call g.trace(); then the valid divergence dims of the case (at most 2)"""
+    return [1] + [d for d in case["div"] if d >= 1][:2]
+
+
+def _line_n(case, g):
+    rec = case["grid"]
+    if rec["kind"] == "cart" and len(rec["n"]) == 1 and rec.get("perturb") is None:
+        return int(rec["n"][0])
+    if rec["kind"] == "tensor" and len(rec["coords"]) == 1:
+        return len(rec["coords"][0]) - 1
+    return None
+
+
 def _impl_tags(case, g):
     from porepy.utils import tags as T
     out = {}
@@ -488,6 +577,26 @@ def _impl_tags(case, g):
         return _bools(g.tags["domain_boundary_nodes"])
     out["dom_nodes"] = _with_node_tags_restored(g, frm)
     out["fresh"] = _kv(g.tags, FACE_TAGS + NODE_TAGS) if _is_fresh(case["grid"]) else None
+    out["all_bnd_nodes"] = _ints(g.get_all_boundary_nodes())
+    out["bnd_nodes"] = _ints(g.get_boundary_nodes())
+    out["bnd_faces"] = _ints(g.get_boundary_faces())
+    out["internal_nodes"] = _ints(g.get_internal_nodes())
+    tr = []
+    for k, dim in enumerate(_trace_dims(case)):
+        try:
+            m = g.trace(dim) if k else g.trace()
+            tr.append({"shape": [int(m.shape[0]), int(m.shape[1])], "trip": _triplets(m)})
+        except Exception as e:
+            tr.append(err_kind(e))
+    out["trace"] = tr
+    n1 = _line_n(case, g)
+    if n1 is None:
+        out["line"] = None
+    else:
+        cf = g.cell_faces
+        out["line"] = {"nf": int(g.num_faces), "nc": int(g.num_cells), "nn": int(g.num_nodes),
+                       "cf": [[int(cf.indices[k]), c, int(cf.data[k])] for c in range(cf.shape[1]) for k in range(cf.indptr[c], cf.indptr[c + 1])],
+                       "fn": _fn_lists(g.face_nodes), "same": True}
     ops = _tagops(case, g)
     par = _Parent()
     par.tags = _as_np(ops["dict"])
@@ -593,7 +702,8 @@ def model_ops(case):
                 sc=_queries(g, case), div=[int(d) for d in case["div"]],
                 flux=[[frac(x) for x in u] for u in _flux(case, g)])]
     tg = [{"k": k, "v": _bools(g.tags[k])} for k in FACE_TAGS + NODE_TAGS]
-    ops.append(dict(topo, op="tags", tags=tg, fresh=_is_fresh(case["grid"]), **_tagops(case, g)))
+    ops.append(dict(topo, op="tags", tags=tg, fresh=_is_fresh(case["grid"]), trace_dims=_trace_dims(case), line=_line_n(case, g),
+                    **_tagops(case, g)))
     key = json.dumps(case["grid"], sort_keys=True)
     if key in _SUB:
         base, cells, _, _ = _SUB[key]
@@ -637,6 +747,7 @@ def model_decode(outs, case):
         for k in ("node_upd", "fresh", "add", "extract", "append"):
             t[k] = _tags_dict(t[k])
         t["std"] = [list(FACE_TAGS), list(NODE_TAGS)]
+        t["trace"] = [d if isinstance(d, dict) else {"shape": [nf * dim, nc * dim], "trip": sorted(d)} for dim, d in zip(_trace_dims(case), t["trace"])]
         out["tags"] = t
     out["extract"] = None
     if len(outs) > 2:
@@ -738,6 +849,45 @@ def _oracle_tags(case, g, A, FN, kind):
     return None
 
 
+def _oracle_neighbours(case, g, A, kind):
+    nf, nc, nn = g.num_faces, g.num_cells, g.num_nodes
+    t = {k: np.asarray(g.tags[k]).astype(bool) for k in FACE_TAGS + NODE_TAGS}
+    anyn = t[NODE_TAGS[0]] | t[NODE_TAGS[1]] | t[NODE_TAGS[2]]
+    if not np.array_equal(np.asarray(_call(g, "get_all_boundary_nodes")), np.where(anyn)[0]):
+        return {"what": f"get_all_boundary_nodes is not the set of nodes carrying a standard node tag on {kind}", "key": "all-boundary-nodes"}
+    if not np.array_equal(np.asarray(_call(g, "get_boundary_nodes")), np.where(t["domain_boundary_nodes"])[0]):
+        return {"what": f"get_boundary_nodes is not the set of domain boundary nodes on {kind}", "key": "boundary-nodes"}
+    if not np.array_equal(np.asarray(_call(g, "get_internal_nodes")), np.where(~t["domain_boundary_nodes"])[0]):
+        return {"what": f"get_internal_nodes is not the complement of the domain boundary nodes on {kind}", "key": "internal-nodes"}
+    if _wellformed(A):
+        tagged = np.where(t[FACE_TAGS[0]] | t[FACE_TAGS[1]] | t[FACE_TAGS[2]])[0]
+        cnt = (A != 0).sum(axis=1)
+        if np.all(cnt[tagged] == 1):
+            for k, dim in enumerate(_trace_dims(case)):
+                M = _call(g, "trace", dim) if k else _call(g, "trace")
+                E = np.zeros((nf * dim, nc * dim))
+                for f in tagged:
+                    c = int(np.nonzero(A[f])[0][0])
+                    for j in range(dim):
+                        E[f * dim + j, c * dim + j] = 1
+                if M.shape != E.shape or not np.array_equal(np.asarray(M.toarray()), E):
+                    return {"what": f"trace({dim}) is not the unit map from the cell of each boundary face to that face, per component, on {kind}", "key": "trace-not-boundary-cells"}
+    n1 = _line_n(case, g)
+    if n1 is not None:
+        E = np.zeros((n1 + 1, n1), dtype=int)
+        for c in range(n1):
+            E[c, c], E[c + 1, c] = -1, 1
+        if A.shape != E.shape or not np.array_equal(A, E):
+            return {"what": f"1-d constructor with {n1} cells: incidence is not (face c: -1, face c+1: +1) for every cell c", "key": "line1d-incidence"}
+    return None
+
+
+def _snapshot(g):
+    cf, fn = g.cell_faces, g.face_nodes
+    return (cf.format, cf.shape, cf.indptr.tolist(), cf.indices.tolist(), cf.data.tolist(), fn.shape, fn.indptr.tolist(), fn.indices.tolist(),
+            {k: np.asarray(v).tolist() for k, v in g.tags.items() if isinstance(v, np.ndarray)}, int(g.num_faces), int(g.num_cells), int(g.num_nodes))
+
+
 def _oracle_extract(case, g, A, kind):
     key = json.dumps(case["grid"], sort_keys=True)
     if key not in _SUB:
@@ -782,8 +932,19 @@ def oracle(case):
         g = _grid(case)
     except Exception as e:
         return {"what": f"building the grid {json.dumps(case['grid'])[:200]} raised {type(e).__name__}: {e}", "key": "grid-construction-raised"}
+    before = _snapshot(g)
     try:
-        return _oracle(case, g)
+        o = _oracle(case, g)
+        if o is None:
+            # repeated operations: the queries are pure -- running all of them (impl_run and the checks above) left the grid untouched,
+            # and a second round of impl_run gives the same answers
+            if _snapshot(g) != before:
+                return {"what": "the connectivity queries modified cell_faces / face_nodes / tags of the grid", "key": "queries-mutate-grid"}
+            if case.get("stratum", "random") != "random" or case.get("flux", 0) % 4 == 0:
+                a, b = impl_run(case), impl_run(case)
+                if deep_compare(a, b) is not None or _snapshot(g) != before:
+                    return {"what": f"repeating the queries gives different answers: {deep_compare(a, b)}", "key": "queries-not-repeatable"}
+        return o
     except _Raised as e:
         return {"what": e.args[0], "key": e.args[1]}
 
@@ -828,6 +989,10 @@ def _oracle(case, g):
                     return {"what": f"divergence({dim}) @ u differs from the scalar divergence of component {k} on {kind}", "key": "div-apply-not-componentwise"}
         # --- tag arithmetic (utils/tags.py): union of the three kinds; node tags = nodes of tagged faces
         o = _oracle_tags(case, g, A, FN, kind)
+        if o:
+            return o
+        # --- neighbouring entry points: node queries, trace operator, the 1-d constructor
+        o = _oracle_neighbours(case, g, A, kind)
         if o:
             return o
         # --- subgrids: incidence of the parent restricted to the cells, well-formed if the parent is
@@ -981,6 +1146,37 @@ def stats(cases, impl_outs):
     for c in cases:
         for q in c["sc"]:
             orders[q.get("order", "shuffle")] = orders.get(q.get("order", "shuffle"), 0) + 1
-    return {"face_list_orders": orders, "grid_kinds": kinds, "grid_dims": dims, "sizes": sizes, "grids_with_split_faces": split,
+    strata = {}
+    for c in cases:
+        strata[c.get("stratum", "corpus")] = strata.get(c.get("stratum", "corpus"), 0) + 1
+    raw = [c["grid"] for c in cases if c["grid"]["kind"] == "raw"]
+    corner = {"grids_0_cells": 0, "grids_1_cell": 0, "grids_0_faces": 0, "raw_unsorted_columns": 0, "raw_ill_formed": 0, "raw_orphan_faces": 0,
+              "queries_empty": 0, "queries_single": 0, "queries_with_repeat": 0, "queries_with_internal": 0, "queries_all_boundary": 0,
+              "trace_calls": 0, "line1d_grids": 0, "subgrid_extractions": 0}
+    for c, o in zip(cases, impl_outs):
+        try:
+            g = _grid(c)
+        except Exception:
+            continue
+        corner["grids_0_cells"] += g.num_cells == 0
+        corner["grids_1_cell"] += g.num_cells == 1
+        corner["grids_0_faces"] += g.num_faces == 0
+        if isinstance(o, dict) and "wf" in o:
+            corner["raw_ill_formed"] += not o["wf"]
+            corner["raw_orphan_faces"] += not o["noorphan"]
+            corner["trace_calls"] += len(o["tags"]["trace"])
+            corner["line1d_grids"] += o["tags"]["line"] is not None
+            corner["subgrid_extractions"] += o["extract"] is not None
+        for q in c["sc"]:
+            corner["queries_empty"] += q["size"] == 0
+            corner["queries_single"] += q["size"] == 1
+            corner["queries_with_repeat"] += bool(q["dup"])
+            corner["queries_with_internal"] += bool(q["internal"])
+            corner["queries_all_boundary"] += q["size"] == 1000
+    for r in raw:
+        cols = [r["cf_indices"][r["cf_indptr"][k]:r["cf_indptr"][k + 1]] for k in range(r["nc"])]
+        corner["raw_unsorted_columns"] += any(x != sorted(x) for x in cols)
+    corner = {k: int(v) for k, v in corner.items()}
+    return {"strata": strata, "corner_counts": corner, "face_list_orders": orders, "grid_kinds": kinds, "grid_dims": dims, "sizes": sizes, "grids_with_split_faces": split,
             "signs_cells_queries": nq, "signs_cells_errors": nerr,
             "div_error_dims": sum(1 for c in cases for d in c["div"] if d < 1)}
